@@ -9,6 +9,7 @@ Protocol of driver_c16 (layouts come from Generated.C16Layout):
   pdbwrite <conect 0|1> <system>           -> ok [ xLINE ... ]            | err <name>
   pdbread  [ xEXCL ... ] <ignh> [ xLINE ... ] -> ok [ mol ... ] [ bond ... ] | err <name>
   growrite <system>                        -> ok [ xLINE ... ]   (atom lines only)
+  growritep <precision> <system>           -> ok [ xLINE ... ]   (write_gro(precision=...))
   groread  [ xEXCL ... ] <ignh> [ xLINE ... ] -> ok [ atom ... ]            | err <name>
 
   system = [ mol ... ];  mol = [ [ atom ... ] [ [ u v ] ... ] ]
@@ -100,6 +101,12 @@ def handle (_ : Unit) (toks : List Tok) : Unit × String :=
     | [Tok.str "growrite", s] => do
         let sys ← sysOf s
         pure ("ok " ++ encLines (writeGro Layout.gro sys))
+    | [Tok.str "growritep", pr, s] => do
+        let p ← pr.nat?
+        let sys ← sysOf s
+        match writeGroPrec Layout.gro Layout.groFmts p sys with
+        | .ok ls => pure ("ok " ++ encLines ls)
+        | .error e => pure (errStr e)
     | [Tok.str "groread", ex, ih, ls] => do
         let excl ← linesOf ex
         let ignh ← ih.nat?
